@@ -44,7 +44,9 @@ def gen_cases(ctx):
             k += n
         # histories: to_array() is also observed after a PRNG-chosen subset of the appends (always after the last)
         reads = sorted(i for i in range(1, len(appends)) if r.random() < 0.5)
-        out.append((cap, appends, width, reads))
+        # aliasing: in half of the histories the caller overwrites its own row array right after append_row returned
+        # (np.concatenate copies; a buffer that kept a reference to the caller's memory would change)
+        out.append((cap, appends, width, reads, (cap + len(appends) + width) % 2))
     c["raa"] = out
     dv = []
     M = ctx.n(11, 15)
@@ -151,10 +153,11 @@ def run(ctx):
     texts.append(("c19_imp_chunks", ihdr + "Definition cases : list (list (list Z) * list (list (Z * (Z * Z)))) := [%s].\nEval vm_compute in (bad chk_imp_chunks cases).\n" % ";\n".join(L), L, "generated:_enumerate_chunk_slices"))
 
     L = []
-    for (cap, appends, width, reads), o in zip(cases["raa"], obs["raa"]):
+    for (cap, appends, width, reads, scr), o in zip(cases["raa"], obs["raa"]):
         over = sum(len(a) for a in appends) > cap
-        ctx.case(("raa", cap, repr(appends), width, repr(reads)), nontrivial=over and len(appends) >= 2,
-                 sample={"capacity": cap, "appends": appends, "to_array_after": reads + [len(appends)], "impl": o})
+        ctx.case(("raa", cap, repr(appends), width, repr(reads), scr), nontrivial=over and len(appends) >= 2,
+                 sample={"capacity": cap, "appends": appends, "to_array_after": reads + [len(appends)], "caller_overwrites_rows": scr, "impl": o})
+        ctx.count("raa_caller_overwrites_rows" if scr else "raa_rows_left_alone")
         ctx.count("raa_overflow" if over else "raa_fits")
         ctx.count("raa_intermediate_reads", len(reads))
         bad = "error" in o
@@ -164,8 +167,8 @@ def run(ctx):
                 if rd["rows"] != flat or not rd["cols_ok"]:
                     bad = True
         if bad:
-            ctx.add_failure("C19.row_appendable", "RowAppendableArray(%d): appends %s with to_array() after %s gives %s, not the concatenation of the rows appended so far" % (cap, appends, reads, o),
-                            {"oracle": "raa", "args": [cap, appends, width, reads], "impl": o})
+            ctx.add_failure("C19.row_appendable", "RowAppendableArray(%d): appends %s%s with to_array() after %s gives %s, not the concatenation of the rows appended so far" % (cap, appends, " (the caller overwrites each row array after appending it)" if scr else "", reads, o),
+                            {"oracle": "raa", "args": [cap, appends, width, reads, scr], "impl": o})
             continue
         L.append("(%d, %s, %s)" % (cap, "[" + "; ".join(zlist(a) for a in appends) + "]",
                                    "[" + "; ".join("(%d, %s)" % (rd["k"], zlist(rd["rows"])) for rd in o["reads"]) + "]"))
